@@ -170,17 +170,56 @@ def rule_R4(ctx, prj):
             ctx.viol("R4", f"SourceFolder.{m}", f.site(), f"SourceFolder.{m} appends {len(apps)} entries")
 
 
-def rule_R5(ctx, prj):
+def rule_R7_tree(ctx, prj) -> bool:
+    from ..absint import PyRaise, Unknown
+    from .. import tree_eval as TE
+    ctx.rule("R7", "a codebase built through add_file from files at several depths (also below a one-character folder, a folder "
+                   "whose name sorts before './' and folders that hold no file themselves) and aggregated once: the totals of every "
+                   "language equal the sums over its files, every file is listed once in its parent folder, every folder once in "
+                   "its parent (by its base name), and every folder profile is the sum of the profiles of the files below it", floor=3)
+    ag = prj.func(f"{CB}.aggregate")
+    af = prj.func(f"{CB}.add_file")
+    try:
+        t, f, p, files = TE.build(prj)
+    except (Unknown, PyRaise) as e:
+        ctx.info(f"codebase not evaluable ({type(e).__name__}: {e}); structural rules R4/R5 decide")
+        ctx.rule("R7", "codebase construction not evaluable by the interpreter: structural rules decide", floor=0)
+        return False
+    rt, rf, rp = TE.reference()
+    if files != [x[0] for x in TE.FILES]:
+        ctx.viol("R7", "add_file/files", af.site(), f"the files are registered as {files}; required {[x[0] for x in TE.FILES]} (each once, under its own path, in the order added)")
+    else:
+        ctx.ok("R7", af.site(), f"{len(files)} files registered under their own paths")
+    if t != rt:
+        lang = next(k for k in set(t) | set(rt) if t.get(k) != rt.get(k))
+        ctx.viol("R7", "add_file/language totals", af.site(), f"the totals of {lang} are {t.get(lang)}; the files give {rt.get(lang)}")
+    else:
+        ctx.ok("R7", af.site(), f"totals of {sorted(t)} equal the sums over their files")
+    if {k: sorted(v) for k, v in f.items()} != {k: sorted(v) for k, v in rf.items()}:
+        key = next(k for k in list(f) + list(rf) if sorted(f.get(k, [("<missing>", 0)])) != sorted(rf.get(k, [("<missing>", 0)])))
+        ctx.viol("R7", "add_folder/registration", prj.func(f"{CB}.add_folder").site(), f"folder {key!r} lists {f.get(key)}; required {rf.get(key)}: a file or sub-folder is listed twice, not at all or under another name")
+    else:
+        ctx.ok("R7", af.site(), f"{len(f)} folders, every file and sub-folder listed exactly once in its parent")
+    if p != rp:
+        key = next(k for k in rp if p.get(k) != rp[k])
+        ctx.viol("R7", "aggregate/profile", ag.site(), f"after aggregate() the profile of folder {key!r} is {p.get(key)}; the files below it give {rp[key]}"
+                 + (": a sub-folder was merged before it was complete, or not at all" if key == "./" or any(k != key and k.startswith(key) for k in rp) else ""))
+    else:
+        ctx.ok("R7", ag.site(), "every folder profile = sum of the profiles of the files below it (root included)")
+    return True
+
+
+def rule_R5(ctx, prj, form=True):
     ctx.rule("R5", "aggregate() computes every folder profile from file profiles and from the COMPLETED profiles of its "
                    "sub-folders (recursion returns the sub-folder's profile, or an explicit children-first order), and is "
                    "applied exactly once to a codebase: once in scan_command, once at the end of ReportReader.from_json, "
-                   "never again on the same object and never before the last add_file", floor=3)
+                   "never again on the same object and never before the last add_file", floor=3 if form else 2)
     ag = prj.func(f"{CB}.aggregate")
-    inner = list(ag.nested.values())
-    for h in with_helpers(prj, ag)[1:]:
+    inner = list(ag.nested.values()) if form else []
+    for h in (with_helpers(prj, ag)[1:] if form else []):
         inner.append(h)
         inner += list(h.nested.values())
-    rec_ok = False
+    rec_ok = not form        # when the tree was evaluated (R7), how aggregate walks it is already decided
 
     def sources(f, e, depth=0):
         out = [e]
@@ -309,6 +348,8 @@ def run(ctx, prj: Project):
     rule_R1(ctx, prj)
     rule_R2(ctx, prj)
     rule_R3(ctx, prj)
-    rule_R4(ctx, prj)
-    rule_R5(ctx, prj)
+    evaluated = rule_R7_tree(ctx, prj)
+    if not evaluated:
+        rule_R4(ctx, prj)
+    rule_R5(ctx, prj, form=not evaluated)
     rule_R6(ctx, prj)
